@@ -10,7 +10,8 @@ use std::{
 
 pub struct Counting;
 
-pub const HARD_CAP: usize = 2 << 30;
+// (3 GiB: the C15 thorough case legitimately doubles a 1 GiB buffer)
+pub const HARD_CAP: usize = 3 << 30;
 
 thread_local! {
 	static LIVE: Cell<isize> = const { Cell::new(0) };
